@@ -7,6 +7,10 @@ import Props.C02
 #print axioms SpyneModel.Props.C02.hier_decodes_conventional
 #print axioms SpyneModel.Props.C02.hier_decodes_msgpack_keys
 #print axioms SpyneModel.Props.C02.hier_response_fidelity
+#print axioms SpyneModel.Props.C02.facts02_guard
+#print axioms SpyneModel.Props.C02.hier_encoding_ignores_identity
+#print axioms SpyneModel.Props.C02.hier_aliasing_invisible
+#print axioms SpyneModel.Props.C02.hier_response_fidelity_aliased
 #print axioms SpyneModel.Props.C02.bigint_survives
 #print axioms SpyneModel.Props.C02.bigint_survives_msgpack
 #print axioms SpyneModel.Props.C02.utf8_roundtrip
